@@ -465,6 +465,37 @@ const BAD: u64 = 999_999;
 
 /// `mk_storage ..` of the model's `cstorage` type; spans and events are named by their position in
 /// `all_spans()` / `all_events()` (items are compared with `==`, which is identity).
+/// The values of an item as listed by `values()`, cross-checked with the two by-name accessors: a value
+/// for which `value(name)` or `item[name]` (the `Index<&str>` impl, which panics on an unknown name)
+/// disagrees with the listing is replaced by a marker string, which the judge cannot agree with.
+fn cvalues_checked<'a>(
+    listed: impl Iterator<Item = (&'a str, &'a tracing_tunnel::TracedValue)>,
+    by_name: impl Fn(&str) -> Option<&'a tracing_tunnel::TracedValue>,
+    by_index: impl Fn(&str) -> Option<tracing_tunnel::TracedValue>,
+    unknown_panics: bool,
+) -> String {
+    let listed: Vec<(&str, &tracing_tunnel::TracedValue)> = listed.collect();
+    let marker = |what: &str| tracing_tunnel::TracedValue::String(format!("ACCESSOR DISAGREES: {what}"));
+    let mut out = vec![];
+    for (k, v) in &listed {
+        // the latest entry of that name in the listing (names are unique in a well-formed collection)
+        let expect = listed.iter().rev().find(|(k2, _)| k2 == k).map(|(_, v2)| ctv(v2));
+        let got_name = by_name(k).map(ctv);
+        let got_index = by_index(k).as_ref().map(ctv);
+        if got_name != expect {
+            out.push(ckv(k, &marker("value(name)")));
+        } else if got_index != expect {
+            out.push(ckv(k, &marker("item[name]")));
+        } else {
+            out.push(ckv(k, v));
+        }
+    }
+    if by_name("\u{1}no such field").is_some() || !unknown_panics {
+        out.push(ckv("\u{1}no such field", &marker("unknown name")));
+    }
+    format!("[{}]", out.join("; "))
+}
+
 pub fn dump_storage(st: &Storage) -> String {
     let spans: Vec<CapturedSpan<'_>> = st.all_spans().collect();
     let events: Vec<CapturedEvent<'_>> = st.all_events().collect();
@@ -475,7 +506,12 @@ pub fn dump_storage(st: &Storage) -> String {
         format!(
             "mk_span (mk_spl {} {} {} {} {}) {} {} {} {} {}",
             ccs(&meta_data(s.metadata())),
-            clist(s.values(), |(k, v)| ckv(k, v)),
+            cvalues_checked(
+                s.values(),
+                |n| s.value(n),
+                |n| catch_unwind(AssertUnwindSafe(|| s[n].clone())).ok(),
+                catch_unwind(AssertUnwindSafe(|| s["\u{1}no such field"].clone())).is_err(),
+            ),
             stats.entered,
             stats.exited,
             cbool(stats.is_closed),
@@ -490,7 +526,12 @@ pub fn dump_storage(st: &Storage) -> String {
         format!(
             "mk_event (mk_epl {} {}) {} {}",
             ccs(&meta_data(e.metadata())),
-            clist(e.values(), |(k, v)| ckv(k, v)),
+            cvalues_checked(
+                e.values(),
+                |n| e.value(n),
+                |n| catch_unwind(AssertUnwindSafe(|| e[n].clone())).ok(),
+                catch_unwind(AssertUnwindSafe(|| e["\u{1}no such field"].clone())).is_err(),
+            ),
             i,
             copt(e.parent().map(|p| spos(&p)), cn)
         )
